@@ -389,6 +389,56 @@ func c05DecoderSweep(c *harness.Ctx, idx *int) bool {
 	return true
 }
 
+// c05UpdateBodies runs UpdateDecoder.Decode (recording callbacks, exact-capacity input) on the body
+// sets of C16 - every string up to length 7 (thorough 8) over the 12-symbol protocol alphabet, the
+// attribute grammar with length-field mutations, padded 4077-byte bodies - and judges one thing only:
+// it returns.
+func c05UpdateBodies(c *harness.Ctx) bool {
+	rec := newUpdRec()
+	n := 0
+	bad := func(body []byte, pan any) {
+		c.Violation("panic", "C05:decoder:UpdateDecoder:panic", fmt.Sprintf("UpdateDecoder.Decode panicked on a %d-byte body %x: %v", len(body), trunc(body), pan),
+			map[string]any{"decoder": "UpdateDecoder", "input_hex": hex.EncodeToString(body)})
+	}
+	try := func(body []byte) {
+		exact := make([]byte, len(body)) // exact capacity: an over-read past the body panics instead of reading slack
+		copy(exact, body)
+		if _, pan := rec.run(exact, nil); pan != nil {
+			bad(body, pan)
+		}
+		n++
+	}
+	shortLen := 7
+	if c.Thorough() {
+		shortLen = 8
+	}
+	_, seqs, padSeqs := c16Params(false)
+	var buf []byte
+	full := updGrammarOpts{ws: []int{0, 1, 2, 3}, ns: []int{0, 1, 2}, tails: []int{0, 1, 2, 3, 4, 5, 6}}
+	mut := updGrammarOpts{ws: []int{0, 2}, ns: []int{0, 1}, tails: []int{0, 6}, mutate: true}
+	for i, seq := range seqs {
+		if !c.Mine(i) {
+			continue
+		}
+		if c.Expired() {
+			return false
+		}
+		for _, o := range []updGrammarOpts{full, mut} {
+			updGrammar(seq, o, &buf, try)
+		}
+	}
+	for i, seq := range padSeqs {
+		if c.Mine(i) {
+			updPadded(seq, 4077, &buf, try)
+		}
+	}
+	ok := updShort(c, shortLen, try)
+	c.Res.Evaluations += int64(n)
+	c.Eval([]byte(fmt.Sprintf("update-bodies/%d", c.Res.Shard)), true)
+	c.Res.Extra["update_bodies_no_panic"] = float64(n)
+	return ok
+}
+
 // ---------- (c) API sequences ----------
 
 var c05APIOps = []string{"addA", "addB", "addInvalid", "delA", "getA", "list", "serve", "close"}
@@ -507,6 +557,9 @@ func c05Check(c *harness.Ctx) {
 	th := c.Thorough()
 	idx := 0
 	if !c05DecoderSweep(c, &idx) {
+		return
+	}
+	if !c05UpdateBodies(c) {
 		return
 	}
 	// (a) attack streams
@@ -670,6 +723,18 @@ func c05Check(c *harness.Ctx) {
 	if th {
 		maxOps = 5
 	}
+	// plugins that couple their callbacks: OnClose joins the goroutine that is inside WriteUpdate
+	for i, p := range c04JoinParams() {
+		if !c.Mine(i) {
+			continue
+		}
+		if c.Expired() {
+			return
+		}
+		if !exploreScn(c, "C05", c04ScnFor("C05", p, 2)) {
+			return
+		}
+	}
 	frontier := [][]int{{}}
 	k := 0
 	for d := 0; d < maxOps; d++ {
@@ -697,7 +762,7 @@ func c05Check(c *harness.Ctx) {
 func init() {
 	harness.Register(&harness.Check{
 		Property: "C05", Level: "exploration", NeedsConc: true, QuickS: 280, ThoroughS: 1600,
-		Rule:   "(a) at each of OpenSent/OpenConfirm/Established x both directions: every type octet x lengths {19,20,21,29,4096} x two fills, boundary header lengths, every marker octet corrupted, received NOTIFICATIONs (codes x subcodes x 8 data patterns), bursts (a session-ending message with 1-3 complete messages behind it in the same write), RFC 9072 shaped OPENs, every truncation of each valid message type followed by FIN, the OPEN body set G02 of C02, and all UPDATE bodies up to length 4 (5 thorough) over a 12-symbol alphabet decoded by a plugin that wires every exported typed decoder; after each input a second peer must still establish, Close and Serve must return, no corebgp goroutine may remain, nothing malformed may have been written; (b) every exported decoder on all byte strings up to length 2 (3 thorough) over all 256 values x 6 flag octets, every length 0..300 and boundary lengths to 70000 with four fills, UpdateDecoder on all 11x11 boundary pairs of its two length fields x total lengths up to 70000; (c) all API call sequences up to length 4 (5 thorough) over {AddPeer A/B/invalid, DeletePeer, GetPeer, ListPeers, Serve, Close} (repeated Serve included), each followed by a liveness probe, all schedules within delay bound 1; distinct_nontrivial counts wire cases, decoder sweep blocks and distinct API outcomes",
+		Rule:   "(a) at each of OpenSent/OpenConfirm/Established x both directions: every type octet x lengths {19,20,21,29,4096} x two fills, boundary header lengths, every marker octet corrupted, received NOTIFICATIONs (codes x subcodes x 8 data patterns), bursts (a session-ending message with 1-3 complete messages behind it in the same write), RFC 9072 shaped OPENs, every truncation of each valid message type followed by FIN, the OPEN body set G02 of C02, and all UPDATE bodies up to length 4 (5 thorough) over a 12-symbol alphabet decoded by a plugin that wires every exported typed decoder; after each input a second peer must still establish, Close and Serve must return, no corebgp goroutine may remain, nothing malformed may have been written; (b) every exported decoder on all byte strings up to length 2 (3 thorough) over all 256 values x 6 flag octets, every length 0..300 and boundary lengths to 70000 with four fills, UpdateDecoder on all 11x11 boundary pairs of its two length fields x total lengths up to 70000; (b') UpdateDecoder.Decode on the C16 body sets (all strings up to length 7 / 8 over the 12-symbol alphabet, grammar with length-field mutations, 4077-byte bodies), judged only for returning; (c) plugins whose OnClose joins a goroutine that is inside WriteUpdate (all schedules within delay bound 2); all API call sequences up to length 4 (5 thorough) over {AddPeer A/B/invalid, DeletePeer, GetPeer, ListPeers, Serve, Close} (repeated Serve included), each followed by a liveness probe, all schedules within delay bound 1; distinct_nontrivial counts wire cases, decoder sweep blocks and distinct API outcomes",
 		Assume: []string{"virtual network (A3)", "a panic is attributed to corebgp when its frames are on the stack"},
 		Run:    c05Check,
 		Replay: func(c *harness.Ctx, raw json.RawMessage) {
@@ -705,6 +770,7 @@ func init() {
 				Case     *c05Wire `json:"case"`
 				Scenario string   `json:"scenario"`
 				Decoder  string   `json:"decoder"`
+				InputHex string   `json:"input_hex"`
 			}
 			if err := json.Unmarshal(raw, &r); err != nil {
 				panic(err)
@@ -716,12 +782,23 @@ func init() {
 				}
 			case r.Scenario != "":
 				scnReplay("C05", func(name string) *Scn {
+					for _, p := range c04JoinParams() {
+						if p.name() == name {
+							return c04ScnFor("C05", p, 2)
+						}
+					}
 					var cs c05API
 					if !strings.HasPrefix(name, "api/") || json.Unmarshal([]byte(name[4:]), &cs) != nil {
 						return nil
 					}
 					return c05APIScn(cs, 2)
 				})(c, raw)
+			case r.Decoder == "UpdateDecoder" && r.InputHex != "":
+				body, _ := hex.DecodeString(r.InputHex)
+				if _, pan := newUpdRec().run(body, nil); pan != nil {
+					c.Violation("panic", "C05:decoder:UpdateDecoder:panic", fmt.Sprintf("UpdateDecoder.Decode panicked on a %d-byte body: %v", len(body), pan),
+						map[string]any{"decoder": "UpdateDecoder", "input_hex": r.InputHex})
+				}
 			default:
 				idx := 0
 				c05DecoderSweep(c, &idx)
